@@ -162,6 +162,15 @@ def do_job(env, kind, ext, n, p, m):
                         err = "load(list) differs from join of the individual loads"
                 if err:
                     out["viols"].append(("%s|load-list" % ext, "md.load([%s]*%d, stride=%d): %s" % (ext, kf, s, err)))
+                # the caller's topology object must come back unchanged from a list load with atom_indices
+                topo = kw.get("top")
+                if isinstance(topo, str):
+                    topo = md.load(topo).topology          # hand a Topology object in, as callers do
+                if topo is not None and hasattr(topo, "subset") and topo.n_atoms >= 4:
+                    md.load([path] * max(kf, 2), top=topo, atom_indices=[0, 1, 2])
+                    if "subset" in getattr(topo, "__dict__", {}) or topo.subset([0, 1, 2, 3]).n_atoms != 4:
+                        out["viols"].append(("%s|load-list|topology-patched" % ext, "after md.load([%s]*2, top=top, atom_indices=[0, 1, 2]) the caller's topology has a patched subset(): top.subset([0, 1, 2, 3]) has %d atoms" % (
+                            ext, topo.subset([0, 1, 2, 3]).n_atoms)))
                 out["nontriv"] = (ext, n, "list", kf, s) if kf > 1 else None
     except Timeout:
         out["viols"].append(("%s|%s|hang|" % (ext, kind), "%s on %s did not return within 30 s: %s" % (kind, ext, p)))
